@@ -64,6 +64,19 @@ func init() {
 		})
 }
 
+// BadMsg is a registered message whose writer fails (an int field: the wire writer supports sized integers only). A Tell
+// of it to another system cannot be encoded; what happens to it is not compared - what is compared is everything after it
+// (every encode path shares pooled writers).
+type BadMsg struct{ Count int }
+
+func init() {
+	vivid.RegisterCustomMessage[*BadMsg]("verif.c15.BadMsg",
+		func(message any, r *messages.Reader, _ messages.Codec) error { return nil },
+		func(message any, w *messages.Writer, _ messages.Codec) error {
+			return w.WriteFrom(message.(*BadMsg).Count)
+		})
+}
+
 type jsonCodec struct{}
 
 func (jsonCodec) Encode(m vivid.Message) ([]byte, error) {
@@ -110,7 +123,7 @@ func mkPayload(codec bool, kind int8, seq int64, n int) vivid.Message {
 // ---- the case
 
 type Op struct {
-	Op     string   `json:"op"` // tell | ask | ping | watch | unwatch | kill | pipe | futurepipe | once
+	Op     string   `json:"op"` // tell | ask | ping | watch | unwatch | kill | pipe | futurepipe | once | badtell
 	By     string   `json:"by"` // X (an actor) | S (the system's root context) | W (the second watcher; watch / unwatch only)
 	Reply  int8     `json:"reply,omitempty"`
 	Codec  bool     `json:"codec,omitempty"`
@@ -136,7 +149,7 @@ func genCase(t *rapid.T) Case {
 	n := rapid.IntRange(1, 7).Draw(t, "ops")
 	watching := map[string]bool{}
 	for i := 0; i < n; i++ {
-		o := Op{Op: rapid.SampledFrom([]string{"tell", "ask", "ask", "ping", "watch", "watch", "unwatch", "pipe", "pipe", "futurepipe", "once"}).Draw(t, "op")}
+		o := Op{Op: rapid.SampledFrom([]string{"tell", "ask", "ask", "ping", "watch", "watch", "unwatch", "pipe", "pipe", "futurepipe", "once", "badtell"}).Draw(t, "op")}
 		o.By = rapid.SampledFrom([]string{"X", "X", "X", "S"}).Draw(t, "by")
 		if c.WithCodec {
 			o.Codec = rapid.Bool().Draw(t, "codecMsg")
@@ -461,6 +474,15 @@ func execute(c Case, A, B *rlab.Node, place map[string]string, tag string) (map[
 			})
 		case "kill":
 			byCtx(func(ctx vivid.ActorContext) { ctx.Kill(T, o.Poison, o.Reason) })
+		case "badtell":
+			// always towards the other system, in both runs: messages that cannot be encoded, from several goroutines
+			ghost, _ := A.Sys.CreateRef(B.Addr, "/verif-nobody")
+			var wg sync.WaitGroup
+			for k := 0; k < 8; k++ {
+				wg.Add(1)
+				go func() { defer wg.Done(); A.Sys.Tell(ghost, &BadMsg{Count: 1}) }()
+			}
+			wg.Wait()
 		}
 		want += expected(o, watchers)
 		if !rlab.WaitUntil(12*time.Second, func() bool { return r.rec.count() >= want }) {
